@@ -51,6 +51,9 @@ def plan(tier, seed):
         for bulk in (5.0, 50.0, 5000.0):
             for nsub in (1, 2, 3):
                 cases.append(dict(key=f"condensed/{fk}/bulk={bulk}/substeps={nsub}", kind="ni", fk=fk, bulk=bulk, nsub=nsub, seed=seed, cost=10))
+            # restart histories: both bodies are created anew on the deformed fields after every substep
+            for nsub in (2, 3):
+                cases.append(dict(key=f"condensed-restart/{fk}/bulk={bulk}/substeps={nsub}", kind="ni", fk=fk, bulk=bulk, nsub=nsub, restart=True, seed=seed, cost=10))
     for fam in ("quad", "hexahedron", "quad9"):
         for n in (2, 3, 4, 5) if fam != "hexahedron" else (2, 3, 4):
             cases.append(dict(key=f"uniform/{fam}/n={n}", kind="uniform", fam=fam, n=n, seed=seed, cost=4))
@@ -279,7 +282,13 @@ def run(case):
             bounds, lc = fem.dof.uniaxial(field, clamped=True, move=0.0, axis=0, sym=(False, True, False)[: mesh.dim] + (False,) * (3 - mesh.dim))
             moves = np.linspace(0, -0.25, case["nsub"] + 1)[1:]
             x = field
-            for mv in moves:
+            for imv, mv in enumerate(moves):
+                if case.get("restart") and imv > 0:
+                    if tag == "c":
+                        body = fem.SolidBodyNearlyIncompressible(um, field, bulk=case["bulk"])
+                    else:
+                        body = fem.SolidBody(fem.NearlyIncompressible(fem.NeoHooke(mu=1.0), bulk=case["bulk"]), field)
+                    x = field
                 bounds["move"].update(mv)
                 ext0 = fem.dof.apply(field, bounds, lc["dof0"])
 
@@ -311,10 +320,12 @@ def run(case):
         cnt_c, cnt_m = [len(x) for x in sc_], [len(x) for x in sm_]
         c.outcomes.add(f"iterations={cnt_c}/{cnt_m}")
         # the convergence measure of the explicit formulation also sees the p- and J-residuals: counts may differ by one
-        if any(abs(a - b) > 1 for a, b in zip(cnt_c, cnt_m)):
+        if any(abs(a - b) > 1 for a, b in zip(cnt_c, cnt_m)) and not case.get("restart"):
             c.bad("iteration-count", "Newton iteration counts per substep, condensed vs explicit (may differ by one)", cnt_c, cnt_m, 1)
         for s_, (la, lb) in enumerate(zip(sc_, sm_)):
-            for k, (a, b) in enumerate(zip(la, lb)):
+            # a re-created condensed body starts from p = 0, J = 1 while the explicit fields keep their p and J: after a
+            # restart only the converged states are comparable
+            for k, (a, b) in enumerate(zip(la, lb) if not (case.get("restart") and s_ > 0) else ()):
                 c.cmp(f"substep{s_}/iterate{k}/u", "displacement iterate", a[0], b[0], 1e-8)
                 c.cmp(f"substep{s_}/iterate{k}/J", "cell volume ratios of the iterate", a[2], b[2], 1e-7)
                 c.cmp(f"substep{s_}/iterate{k}/p", "cell pressures of the iterate", 1 + a[1] / max(case["bulk"], 1), 1 + b[1] / max(case["bulk"], 1), 1e-7)
